@@ -100,6 +100,28 @@ int main ()
       else if (op == "t.out.quatu") { double v[4]; for (int i=0;i<4;i++) v[i] = rd (a.next()); Quaternion<double,Unitary> q (v[0],v[1],v[2],v[3]); std::ostringstream ss; ss.precision (17); ss << q; o = enc (ss.str()); }
       // leaf: the stream's own number printing and parsing at precision 17: text, parsed-back value, flags
       else if (op == "t.leaf") { double x = rd (a.next()); std::stringstream ss; ss.precision (17); ss << x; std::string text = ss.str(); double y = SV; ss >> y; o = enc (text) + hx (y) + state (ss); }
+      // oracle: several values written to one stream, separated by white space (as a file with one value per line or per
+      // column), read back in order: every value returns and the stream stays good.  Output: mismatching components, fail flag
+      else if (op == "o.c19.multi") { unsigned k = std::stoul (a.next()); unsigned sepc = std::stoul (a.next());
+        const char* seps[] = { " ", "\n", "\t", "  \n ", "\r\n" }; std::string sep = seps[sepc % 5];
+        std::stringstream ss; ss.precision (17); std::vector<std::string> kinds; std::vector< std::vector<double> > vals;
+        for (unsigned i=0;i<k;i++) { std::string kind = a.next(); kinds.push_back (kind); std::vector<double> v; unsigned n = kind == "d3" ? 3 : kind == "s" ? 4 : kind == "c2" ? 4 : kind == "e" ? 2 : 4;
+          for (unsigned j=0;j<n;j++) v.push_back (rd (a.next())); vals.push_back (v); if (i) ss << sep;
+          if (kind == "d3") ss << Vector<3,double> (v[0], v[1], v[2]); else if (kind == "s") ss << Stokes<double> (v[0], v[1], v[2], v[3]);
+          else if (kind == "c2") ss << Vector<2, std::complex<double> > (std::complex<double> (v[0], v[1]), std::complex<double> (v[2], v[3]));
+          else if (kind == "e") ss << Estimate<double> (v[0], v[1]);
+          else if (kind == "se") ss << Stokes< Estimate<double> > (Estimate<double> (v[0], 1.0), Estimate<double> (v[1], 4.0), Estimate<double> (v[2], 0.25), Estimate<double> (v[3], 16.0));
+          else throw std::runtime_error ("protocol:kind"); }
+        unsigned bad = 0, failed = 0;
+        for (unsigned i=0;i<k;i++) { const std::vector<double>& v = vals[i]; const std::string& kind = kinds[i];
+          auto same = [] (double x, double y) { return memcmp (&x, &y, 8) == 0 || (x == 0 && y == 0); };
+          if (kind == "d3") { Vector<3,double> d (SV, SV, SV); ss >> d; for (unsigned j=0;j<3;j++) if (!same (d[j], v[j])) bad++; }
+          else if (kind == "s") { Stokes<double> d (SV, SV, SV, SV); ss >> d; for (unsigned j=0;j<4;j++) if (!same (d[j], v[j])) bad++; }
+          else if (kind == "c2") { Vector<2, std::complex<double> > d; ss >> d; if (!same (d[0].real(), v[0]) || !same (d[0].imag(), v[1]) || !same (d[1].real(), v[2]) || !same (d[1].imag(), v[3])) bad++; }
+          else if (kind == "e") { Estimate<double> d (SV, SVAR); ss >> d; if (!same (d.get_value(), v[0])) bad++; }
+          else if (kind == "se") { Stokes< Estimate<double> > d; ss >> d; for (unsigned j=0;j<4;j++) if (!same (d[j].get_value(), v[j])) bad++; }
+          if (ss.fail()) failed = 1; }
+        o = " " + std::to_string (bad) + " " + std::to_string (failed); }
       else { std::cout << "err unknown-op\n"; continue; }
       std::cout << "ok" << o << "\n";
     }
